@@ -6,7 +6,7 @@ from pipeprop import rid, case_input
 from core import Failure
 
 LEVEL = "proof"
-FOCUS = ("filters", "redirect", "demux", "maxaer", "pairfilter", "adapters")
+FOCUS = ("filters", "redirect", "demux", "maxaer", "pairfilter", "adapters", "revcomp", "info")
 
 
 def oracle(ctx, case, res, real):
@@ -71,6 +71,23 @@ def oracle(ctx, case, res, real):
         if qt > removed or (only_q and qt != removed):
             ctx.failures.append(Failure("C04/trimmed-bp-not-sum-over-reads", "reported quality-trimmed + poly-A-trimmed bases differ from the bases the reads lost",
                                         inp, dict(quality_trimmed=bp["quality_trimmed"], poly_a_trimmed=bp["poly_a_trimmed"]), dict(input_minus_output=removed)))
+    # "with-adapter counts equal the sums over the individual reads": a read counts at most once, whatever --times / --revcomp do
+    for key in ("read1_with_adapter", "read2_with_adapter"):
+        if (rc.get(key) or 0) > n:
+            ctx.failures.append(Failure("C04/with-adapter-count", "more reads counted as 'with adapter' than there are reads", inp, {key: rc.get(key)}, n))
+    if "--info-file" in argv and "texts" in real2 and "info.txt" in real2["texts"]:
+        with_rows = {l.split("\t")[0] for l in real2["texts"]["info.txt"] if l.split("\t")[1] != "-1"}
+        if (rc.get("read1_with_adapter") or 0) != len(with_rows):
+            ctx.failures.append(Failure("C04/with-adapter-count", "read1_with_adapter differs from the number of reads that have a match row in the info file",
+                                        inp, rc.get("read1_with_adapter"), len(with_rows)))
+        ctx.count("with-adapter-vs-info-file")
+    if not case["paired"] and not demux and sum(filt.values()) == (filt.get("discard_untrimmed") or 0) and \
+            ("--discard-untrimmed" in argv or "--untrimmed-output" in argv) and any(t in argv for t in ("-a", "-g", "-b")):
+        # single-end, no other filter consumed a read: the reads that reach the main output are exactly the trimmed ones
+        if (rc.get("read1_with_adapter") or 0) != nwritten:
+            ctx.failures.append(Failure("C04/with-adapter-count", "read1_with_adapter differs from the number of reads that passed the untrimmed filter",
+                                        inp, rc.get("read1_with_adapter"), nwritten))
+        ctx.count("with-adapter-vs-untrimmed-filter")
     # the text report must account for the same figures: every non-zero filter category of the statistics object is printed
     st = res2.stats
     from cutadapt.report import FILTERS
